@@ -131,3 +131,51 @@ def check_free_text(chk):
             else:
                 chk.ok("G-FLOW.a", key + "#%s" % fc.line, {"where": fc.where, "context": ctx, "sources": sorted(reads)[:6]}, nontrivial=True)
     chk.floor("G-FLOW.a literal-context placeholders", n, 30)
+    check_escape_table(chk, esc)
+
+
+# characters that cannot stand for themselves inside a C++ string/character literal under some supported standard
+MUST_ESCAPE = {
+    34: "`\"` ends a string literal",
+    39: "`'` ends a character literal",
+    92: "backslash starts an escape sequence",
+    10: "a newline ends the line inside a literal",
+    13: "a carriage return ends the line inside a literal",
+    63: "`?`: C++11/14 replace trigraphs (`??/` is a backslash, `??'`, `??!` ...) before literals are formed",
+}
+
+
+def check_escape_table(chk, esc):
+    """the escaping function every free-text placeholder goes through handles each character of MUST_ESCAPE"""
+    fns = [fn for fn in esc if fn.get("body") is not None]
+    if not fns:
+        chk.broke("G-FLOW.a: no escape function found in sbeppc")
+        return
+    fn = fns[0]
+    handled = set()
+    for x in walk(fn["body"]):
+        if x.get("k") == "CaseStmt":
+            for y in walk(x.get("lhs") or x.get("value") or {}):
+                if "cv" in y:
+                    try:
+                        handled.add(int(y["cv"]))
+                    except ValueError:
+                        pass
+        if x.get("k") == "BinaryOperator" and x.get("op") == "==":
+            for y in (x.get("lhs") or {}, x.get("rhs") or {}):
+                if "cv" in y:
+                    try:
+                        handled.add(int(y["cv"]))
+                    except ValueError:
+                        pass
+    if len(handled) < 3:
+        chk.broke("G-FLOW.a: cannot read the character cases of %s (found %s)" % (fn["qn"], sorted(handled)))
+        return
+    for c, why in sorted(MUST_ESCAPE.items()):
+        key = "escape-char:%d" % c
+        if c in handled:
+            chk.ok("G-FLOW.a", key, {"function": fn["qn"], "char": c})
+        else:
+            chk.violation("G-FLOW.a", key, "%s:%s" % (rel(fn["file"]), fn["line"]),
+                          "%s leaves character %d (%r) as it is: %s - schema free text containing it yields a header that "
+                          "does not compile (or means something else)" % (fn["qn"], c, chr(c), why))
